@@ -73,12 +73,84 @@ def lemmas(run):
     return f
 
 
+def tier_b(run, thorough):
+    """engine B: the real RDMs.mean / combine._mean on symbolic dissimilarities and symbolic positive weights with EVERY pattern
+    of missing entries (the concrete float NaN marks a missing entry): for all real values the mean of pair j is
+    sum_{r has a value} w_rj x_rj / sum_{r has a value} w_rj, NaN exactly where no RDM has a value; unweighted, one weight
+    per RDM (array and rdm-descriptor name), one weight per entry; the caller's weights stay untouched"""
+    import itertools
+    import numpy as np
+    import sympy as sp
+    from vf.symrun.core import symarray, patched_np, identical, OVERRIDES_USED, guard
+    from rsatoolbox.rdm import RDMs
+    fails = []
+    n_eval = 0
+    nan = float('nan')
+    shapes = [(2, 3), (3, 3)] + ([(4, 3)] if thorough else [])
+    for (R, P) in shapes:
+        X = symarray('x', (R, P))
+        # column j of the stack gets the j-th family of missing-patterns; all subsets of RDMs occur over the columns/variants
+        subsets = [set(c) for k in range(R + 1) for c in itertools.combinations(range(R), k)]
+        variants = [subsets[i:i + P] for i in range(0, len(subsets), P)]
+        for vi, cols in enumerate(variants):
+            cols = cols + [set()] * (P - len(cols))
+            D = X.copy()
+            for j, miss in enumerate(cols):
+                for r in miss:
+                    D[r, j] = nan
+            for wkind in ('none', 'per-rdm', 'per-rdm-descriptor', 'per-entry'):
+                nm = f'C13/RDMs.mean/B/weighted-mean-over-the-available-entries[{R}x{P},missing-variant={vi},weights={wkind}]'
+                with guard(run, nm):
+                    if wkind == 'none':
+                        W, arg = np.full((R, P), sp.Integer(1), dtype=object), None
+                    elif wkind.startswith('per-rdm'):
+                        w = symarray('w', R, positive=True)
+                        W = np.repeat(w[:, None], P, axis=1)
+                        arg = w.copy() if wkind == 'per-rdm' else 'wt'
+                    else:
+                        W = symarray('w', (R, P), positive=True)
+                        arg = W.copy()
+                    keep = None if arg is None or isinstance(arg, str) else arg.copy()
+                    rd = RDMs.__new__(RDMs)
+                    rd.dissimilarities = D.copy()
+                    rd.n_rdm, rd.n_cond = R, 3
+                    rd.descriptors, rd.dissimilarity_measure = {}, 'x'
+                    rd.rdm_descriptors = {'index': list(range(R)), 'wt': symarray('w', R, positive=True)}
+                    rd.pattern_descriptors = {'index': [0, 1, 2]}
+                    with patched_np(['rsatoolbox.rdm.combine', 'rsatoolbox.rdm.rdms']):
+                        from rsatoolbox.rdm.combine import _mean
+                        got = _mean(rd.dissimilarities, rd.rdm_descriptors['wt'] if isinstance(arg, str) else arg)
+                    want = []
+                    for j in range(P):
+                        have = [r for r in range(R) if r not in cols[j]]
+                        want.append(nan if not have else sum(W[r, j] * X[r, j] for r in have) / sum(W[r, j] for r in have))
+                    ok, idx, diff = identical(np.asarray(got, dtype=object), np.array(want, dtype=object))
+                    bad = None if ok else f'differs at pair {idx}: {str(diff)[:200]}'
+                    if bad is None and keep is not None:
+                        ok2, idx2, _ = identical(arg, keep)
+                        if not ok2:
+                            bad = f'the weights array of the caller was modified at {idx2}'
+                    n_eval += 1
+                    run.obligation(nm, 'proved' if bad is None else 'refuted', 'sympy-normal-form', 0.0, detail=bad or
+                                   'mean_j = sum over available r of w_rj x_rj / sum over available r of w_rj; NaN iff none available')
+                    if bad:
+                        fails.append((nm, '_mean', dict(case=nm, what=bad)))
+    for o in sorted(OVERRIDES_USED):
+        run.trust('engine B proxy override: ' + o)
+    run.bounded_check('C13/B/weighted-mean', 'B', 'ALL REAL dissimilarities and ALL POSITIVE weights; stacks %s; every subset of RDMs '
+                      'missing for some pair; 4 weight forms' % (shapes,), n_eval, n_eval, exhaustive=False, failures=len(fails))
+    return fails
+
+
 def run(run):
     E = new_engine(run)
     fails = lemmas(run)
     for ck in check_parsers(run, E):
         fails += ck.failed
     finish_engine(E, run)
+    for nm, fn, detail in tier_b(run, run.tier == 'thorough'):
+        run.violation(nm, 'all-real-values', dict(obligation=nm, detail=detail), found_input=False,
+                      what='engine-B identity refuted: ' + str(detail.get('what'))[:200])
     finish(run, fails, 'C13')
     run.explanation = ('engine A: both NaN parsers return only when all rows of both inputs share one mask (else ValueError), for all '
                        'inputs; bounded tier: entry-deleted equality for every measure / sigma_k, pooling, regression, mean, rescale')
